@@ -123,6 +123,22 @@ def histories(M, rec, rng, reps):
         L = [M.Link(1, 2, 1.0, 180.0, 33.0, 100.0, 1.8) for _ in range(rng.randint(1, 5))]
         O = [M.MeteredOnRamp(900.0), M.Origin(), M.MainstreamOrigin()]
         Dd = [M.Destination(), M.CongestedDestination()]
+        if rng.random() < 0.4:
+            # clones of existing objects (copy / deepcopy / pickle round-trip, as when a stretch is duplicated
+            # from a template): equal content, but other objects - other nodes, links, origins of the graph
+            import copy
+            import pickle
+
+            def clone(x):
+                how = rng.choice(("copy", "deepcopy", "pickle"))
+                rec.seen("clone_forms", (how, type(x).__name__))
+                return copy.copy(x) if how == "copy" else (copy.deepcopy(x) if how == "deepcopy" else pickle.loads(pickle.dumps(x)))
+
+            N += [clone(rng.choice(N)) for _c in range(rng.randint(1, 3))]
+            L += [clone(rng.choice(L)) for _c in range(rng.randint(1, 2))]
+            O.append(clone(rng.choice(O)))
+            Dd.append(clone(rng.choice(Dd)))
+            rec.count("histories_with_cloned_objects")
         net = M.Network()
         st = netmon.graph_state(net)
         hist = []
